@@ -100,7 +100,7 @@ class AxolotlManager(object):
         latest_signed_prekey = self.load_latest_signed_prekey(generate=False)
         if latest_signed_prekey is not None:
             if latest_signed_prekey.getId() == self.MAX_SIGNED_PREKEY_ID:
-                new_signed_prekey_id = (self.MAX_SIGNED_PREKEY_ID / 2) + 1
+                new_signed_prekey_id = (self.MAX_SIGNED_PREKEY_ID // 2) + 1
             else:
                 new_signed_prekey_id = latest_signed_prekey.getId() + 1
         else:
